@@ -563,3 +563,24 @@ func describe(v ssa.Value) string {
 	}
 	return fmt.Sprintf("%s = %s", v.Name(), v.String())
 }
+
+// retResult returns result i of a Return, looking through the defer-spill shape
+// (`*r = v; rundefers; t = *r; return t`): the value stored last in the same block is returned.
+func retResult(ret *ssa.Return, i int) ssa.Value {
+	v := ret.Results[i]
+	u, ok := v.(*ssa.UnOp)
+	if !ok || u.Op != token.MUL {
+		return v
+	}
+	al, ok := u.X.(*ssa.Alloc)
+	if !ok {
+		return v
+	}
+	instrs := ret.Block().Instrs
+	for k := len(instrs) - 1; k >= 0; k-- {
+		if st, ok := instrs[k].(*ssa.Store); ok && st.Addr == ssa.Value(al) {
+			return st.Val
+		}
+	}
+	return v
+}
